@@ -200,6 +200,8 @@ SCALES = [1, 1, 1, 0.01, 1e-20, 1e20, 1e-170, 1e170, 1e-280, 1e280]      # beyon
 
 def random_svd(ctx, idx, rng):
     m, n = (int(rng.integers(1, 25)), int(rng.integers(1, 25))) if idx % 20 else (int(rng.integers(25, 120)), int(rng.integers(25, 120)))
+    if idx % 300 == 150:
+        m, n = int(rng.integers(300, 700)), int(rng.integers(300, 700))          # occasionally a really large matrix
     lay, q0, q1 = _layout(rng, m, n)
     kind = str(rng.choice(['decaying', 'flat', 'staircase', 'degenerate', 'near-degenerate', 'deficient', 'random', 'zerocols', 'binary', 'dupcols', 'nearstruct', 'nearstruct']))
     cplx = bool(rng.random() < 0.5)
@@ -401,6 +403,6 @@ SPEC = {
         Workload('insitu', insitu, quick=100, thorough=8000),
         Workload('suite-soak', soak_case, quick=0, thorough=1, shardable=False),
     ],
-    'shards': {'quick': 1, 'thorough': 16},
+    'shards': {'quick': 4, 'thorough': 16},
     'assumptions': ['numpy.linalg.svd of the full matrix is the independent spectrum', 'slack 1e-12 on threshold decisions that are not exact'],
 }
